@@ -489,7 +489,7 @@ pub fn raw_oracle(sc: &Scenario, out: &Outcome) -> Vec<Violation> {
 // ---------------- Part B: direct-connection reference ----------------
 
 pub const REF_PROGRAMS: &[&str] = &[
-    "simple", "ext", "named", "pipelined", "bare-sync-then-batch", "sync-between", "describe", "close-reparse", "flush-wait", "big", "txn-ext", "copy", "ext-copy", "ext-copy-fail", "ext-copy-in-txn", "copy-sync-mid", "error-in-batch",
+    "simple", "ext", "named", "pipelined", "bare-sync-then-batch", "sync-between", "describe", "close-reparse", "flush-wait", "big", "txn-ext", "copy", "ext-copy", "ext-copy-fail", "ext-copy-in-txn", "copy-sync-mid", "copy-then-bigrows", "error-in-batch",
 ];
 
 pub fn norm(m: &Msg) -> Msg {
@@ -638,6 +638,20 @@ pub fn ref_program(prog: &str) -> Script {
                 .send(wire::copy_data(b"3\n"), "d")
                 .send_z(wire::copy_done(), "c")
                 .q(&format!("SELECT 1 /*{}*/", t(1, 0)));
+        }
+        // one simple Query: a SET, a COPY FROM STDIN, then a SELECT whose rows exceed the pooler's relay chunk:
+        // the reply to CopyDone is CommandComplete, the rows in several chunks, CommandComplete, ReadyForQuery
+        "copy-then-bigrows" => {
+            s = s
+                .send(
+                    wire::query(&format!("SET work_mem TO '8MB'; COPY t FROM STDIN /*{}*/; SELECT big /*{} rows=5 size=4000*/", t(0, 0), t(0, 1))),
+                    "Q SET; COPY; SELECT big",
+                )
+                .wait(Cond::CodeOrClosed(b'G', 1))
+                .send(wire::copy_data(b"1\n"), "d")
+                .send_z(wire::copy_done(), "c")
+                .q(&format!("SELECT 1 /*{}*/", t(1, 0)))
+                .q(&format!("SELECT 2 /*{}*/", t(2, 0)));
         }
         "error-in-batch" => {
             let mut b = pbe("", "SELECT ERR!", &t(0, 0));
